@@ -26,7 +26,7 @@ TOL = 1e-9
 # Entry: {"id": ..., "what": ..., "match": lambda case: bool}
 PROPOSED_KNOWN = []
 
-OWN_V = ["Ops/DFT.v", "Ops/DFTEngines.v", "Ops/Haar.v", "Corr/CheckC08.v", "Props/C08.v", "Props/C07c.v"]
+OWN_V = ["Ops/DFT.v", "Ops/DFTEngines.v", "Ops/Haar.v", "Ops/Haar2D.v", "Corr/CheckC08.v", "Props/C08.v", "Props/C07c.v"]
 
 
 def build_own():
@@ -486,6 +486,135 @@ def haar_search(p):
     return None
 
 
+# ------------------------------------------------------------------ DWT2D(haar) vs the Coq 2-D model
+def _plen(n, L):
+    return max(1 << max(n - 1, 0).bit_length(), 1 << L)
+
+
+def haar2_grid(tier):
+    out = []
+    shapes = [(2, 2), (4, 4), (3, 5), (5, 6), (1, 3), (4, 2), (6, 3), (8, 4), (3, 12), (7, 2), (1, 1)]
+    for r, cc in shapes:
+        for lev in (0, 1, 2, 3):
+            if _plen(r, lev) * _plen(cc, lev) <= (128 if tier == "quick" else 512):
+                out.append(dict(dims=[r, cc], level=lev))
+    for dims, lev in (((2, 3, 4), 1), ((2, 3, 4), 2), ((3, 2, 2), 1), ((2, 5, 3), 3)):
+        out.append(dict(dims=list(dims), level=lev))
+    return out
+
+
+def haar2_ref(p, x, adjoint=False):
+    """numpy transcription of wavedec2(haar) + coeffs_to_array with pylops' padding (search / replay only)."""
+    dims, L = list(p["dims"]), p["level"]
+    r, cc = dims[-2], dims[-1]
+    b = int(np.prod(dims[:-2]))
+    P0, P1 = _plen(r, L), _plen(cc, L)
+    c = 1 / np.sqrt(2)
+    if not adjoint:
+        a = np.zeros((b, P0, P1))
+        a[:, :r, :cc] = np.asarray(x, dtype=float).reshape(b, r, cc)
+        h, w = P0, P1
+        for _ in range(L):
+            blk = a[:, :h, :w]
+            ra, rd = (blk[:, :, 0::2] + blk[:, :, 1::2]) * c, (blk[:, :, 0::2] - blk[:, :, 1::2]) * c
+            new = np.empty_like(blk)
+            new[:, :h // 2, :w // 2] = (ra[:, 0::2] + ra[:, 1::2]) * c
+            new[:, :h // 2, w // 2:] = (rd[:, 0::2] + rd[:, 1::2]) * c
+            new[:, h // 2:, :w // 2] = (ra[:, 0::2] - ra[:, 1::2]) * c
+            new[:, h // 2:, w // 2:] = (rd[:, 0::2] - rd[:, 1::2]) * c
+            a[:, :h, :w] = new
+            h, w = h // 2, w // 2
+        return a.ravel()
+    a = np.asarray(x, dtype=float).reshape(b, P0, P1).copy()
+    h, w = P0 >> L, P1 >> L
+    for _ in range(L):
+        blk = a[:, :2 * h, :2 * w]
+        aa, ad, da, dd = blk[:, :h, :w], blk[:, :h, w:], blk[:, h:, :w], blk[:, h:, w:]
+        ra = np.empty((b, 2 * h, w)); rd = np.empty((b, 2 * h, w))
+        ra[:, 0::2], ra[:, 1::2] = (aa + da) * c, (aa - da) * c
+        rd[:, 0::2], rd[:, 1::2] = (ad + dd) * c, (ad - dd) * c
+        new = np.empty((b, 2 * h, 2 * w))
+        new[:, :, 0::2], new[:, :, 1::2] = (ra + rd) * c, (ra - rd) * c
+        a[:, :2 * h, :2 * w] = new
+        h, w = 2 * h, 2 * w
+    return a[:, :r, :cc].ravel()
+
+
+def haar2_cases(tier):
+    import pylops
+    rx = common.rng(PID, "haar2", tier)
+    recs = []
+    for i, p in enumerate(haar2_grid(tier)):
+        rec = dict(id=i, params=p)
+        try:
+            Op = pylops.signalprocessing.DWT2D(tuple(p["dims"]), wavelet="haar", level=p["level"])
+            m, n = int(Op.shape[0]), int(Op.shape[1])
+            xs = [np.eye(n)[j] for j in (range(n) if n <= 6 else sorted(rx.sample(range(n), 5)))] + [intvec(rx, n, False) for _ in range(2)]
+            ys = [intvec(rx, m, False)]
+            rec["fw"] = [(x, np.asarray(Op @ x).ravel()) for x in xs]
+            rec["ad"] = [(y, np.asarray(Op.H @ y).ravel()) for y in ys]
+        except Exception as e:                                   # noqa: BLE001
+            rec["error"] = repr(e)
+        recs.append(rec)
+    return recs
+
+
+def _batchlit(v, shape):
+    a = np.asarray(v, dtype=float).reshape(shape)
+    return "[" + "; ".join(common.mlit(M) for M in a) + "]"
+
+
+def haar2_emit(d, recs):
+    good = [r for r in recs if "error" not in r]
+    nsh = max(1, min(16, (len(good) + 5) // 6))
+    r2 = common.qlit(_sqrt2_60())
+    files = []
+    for k in range(nsh):
+        sh = good[k::nsh]
+        idmap, lits = {}, []
+        for lid, rec in enumerate(sh):
+            p = rec["params"]
+            dims, L = p["dims"], p["level"]
+            r, cc = dims[-2], dims[-1]
+            b = int(np.prod(dims[:-2]))
+            P0, P1 = _plen(r, L), _plen(cc, L)
+            idmap[lid] = rec["id"]
+            lits.append("{| g_id := %d; g_r := %d; g_c := %d; g_L := %d; g_r2 := %s;\n  g_fw := [%s];\n  g_ad := [%s] |}"
+                        % (lid, r, cc, L, r2,
+                           ";\n   ".join("(%s, %s)" % (_batchlit(x, (b, r, cc)), _batchlit(y, (b, P0, P1))) for x, y in rec["fw"]),
+                           ";\n   ".join("(%s, %s)" % (_batchlit(y, (b, P0, P1)), _batchlit(x, (b, r, cc))) for y, x in rec["ad"])))
+        if k == 0:    # canary: 2 x 2, level 1: the aa coefficient of e_00 is 1/2, not 1/4
+            idmap[len(sh)] = "canary"
+            lits.append("{| g_id := %d; g_r := 2; g_c := 2; g_L := 1; g_r2 := %s;\n  g_fw := [([[[(qz 1); z0]; [z0; z0]]], [[[(q 1 4); (q 1 2)]; [(q 1 2); (q 1 2)]]])]; g_ad := [] |}" % (len(sh), r2))
+        Ls = ["From Coq Require Import QArith Qcanon ZArith List. Import ListNotations.",
+              "From PV Require Import Dict Vec Dot Mat QcInst GaussQc Check CheckC08.",
+              "Definition tol : Qc := q 1 1000000000.",
+              "Definition cs : list h2case := [\n " + ";\n ".join(lits) + "].",
+              "Eval vm_compute in (failing g_id (h2_check tol) cs)."]
+        name = "c08g_%02d" % k
+        with open(os.path.join(d, name + ".v"), "w") as f:
+            f.write("\n".join(Ls) + "\n")
+        files.append((name, idmap))
+    return files
+
+
+def haar2_search(p):
+    import pylops
+    Op = pylops.signalprocessing.DWT2D(tuple(p["dims"]), wavelet="haar", level=p["level"])
+    m, n = int(Op.shape[0]), int(Op.shape[1])
+    for adj, N_, f in ((False, n, lambda e: Op @ e), (True, m, lambda e: Op.H @ e)):
+        for j in range(N_):
+            e = np.eye(N_)[j]
+            obs, doc = np.asarray(f(e)).ravel(), haar2_ref(p, e, adjoint=adj)
+            if obs.shape != doc.shape:
+                return dict(direction="adjoint" if adj else "forward", unit_vector=j, shape_observed=list(obs.shape), shape_documented=list(doc.shape))
+            bad = np.abs(obs - doc) > TOL * (1 + np.abs(doc))
+            if bad.any():
+                k = int(np.argmax(bad))
+                return dict(direction="adjoint" if adj else "forward", unit_vector=j, row=k, observed=float(obs[k]), documented=float(doc[k]))
+    return None
+
+
 # ------------------------------------------------------------------ run
 def run_cases(tier):
     rs = common.rng(PID, "grid", tier)
@@ -597,9 +726,9 @@ def search(fam, p, kind):
 def replay(rp):
     warnings.simplefilter("ignore")
     fam, p, kind = rp["family"], rp["params"], rp["kind"]
-    if kind == "haar":
+    if kind in ("haar", "haar2"):
         try:
-            s_ = haar_search(p)
+            s_ = haar_search(p) if kind == "haar" else haar2_search(p)
         except Exception as e:                                   # noqa: BLE001
             s_ = dict(error=repr(e))
         print(s_)
@@ -675,6 +804,18 @@ def main(tier):
                 hfail[idmap[lid]] = codes
     if not hcan:
         raise SystemExit("C08 Haar canary not flagged: the Coq comparison pipeline is broken")
+    grecs = haar2_cases(tier)
+    gfiles = haar2_emit(d, grecs)
+    gouts = common.run_coq_files(d, [n for n, _ in gfiles])
+    gfail, gcan = {}, False
+    for n, idmap in gfiles:
+        for lid, codes in common.parse_failing(gouts[n]).items():
+            if idmap[lid] == "canary":
+                gcan = True
+            else:
+                gfail[idmap[lid]] = codes
+    if not gcan:
+        raise SystemExit("C08 Haar-2D canary not flagged: the Coq comparison pipeline is broken")
     t_coq = time.time() - t0
     if canaries != {("canary", 0), ("canary", 1), ("canary", 2)}:
         raise SystemExit("C08 canaries not flagged (%s): the Coq comparison pipeline is broken" % sorted(canaries))
@@ -746,6 +887,22 @@ def main(tier):
         else:
             rp.update(broken="Corr.CheckC08.h_check (implementation matrix vs Haar model; theorems C08_haar_*)")
             R.violation("DWT(haar) %s disagrees with the Coq Haar model but the numpy transcription agrees%s" % (p, more), rp, no_input=True)
+    glist = [r for r in grecs if "error" in r or r["id"] in gfail]
+    gbad = len(glist)
+    for gi, r in enumerate(sorted(glist, key=lambda r: (int(np.prod(r["params"]["dims"])), r["params"]["level"], r["id"]))[:3]):
+        p = r["params"]
+        more = " [%d DWT2D(haar) configurations fail in total]" % gbad if gi == 0 and gbad > 1 else ""
+        if "error" in r:
+            R.violation("DWT2D(haar) raised on a valid configuration: %s %s%s" % (p, r["error"], more), dict(family="DWT2D", params=p, kind="haar2", error=r["error"]))
+            continue
+        s_ = haar2_search(p)
+        rp = dict(family="DWT2D", params=p, kind="haar2", coq_codes=gfail[r["id"]])
+        if s_:
+            rp.update(s_)
+            R.violation("DWT2D(wavelet='haar', dims=%s, level=%s) is not the 2-D Haar transform of Ops/Haar2D.v: %s%s" % (p["dims"], p["level"], s_, more), rp)
+        else:
+            rp.update(broken="Corr.CheckC08.h2_check (implementation vs 2-D Haar model; theorems C08_haar2d_*)")
+            R.violation("DWT2D(haar) %s disagrees with the Coq 2-D Haar model but the numpy transcription agrees%s" % (p, more), rp, no_input=True)
     if axioms and not set(axioms) <= common.ALLOWED_AXIOMS:
         R.violation("Props/C08.v depends on unexpected axioms %s" % axioms, {"axioms": axioms}, no_input=True)
     # ---- coverage
@@ -762,11 +919,11 @@ def main(tier):
         nontriv.add((g["cfg"], "gram"))
     nfail = sum(len(v) for v in groups.values())
     R.cov.update(
-        obligations=len(thms) + len(cases) + len(grams) + len(hrecs),
-        discharged=len(thms) + len(cases) + len(grams) + len(hrecs) - len([c for c in failing]) - hbad,
+        obligations=len(thms) + len(cases) + len(grams) + len(hrecs) + len(grecs),
+        discharged=len(thms) + len(cases) + len(grams) + len(hrecs) + len(grecs) - len([c for c in failing]) - hbad - gbad,
         checker_cmd="make -C coq; coqc Ops/DFT.v Ops/DFTEngines.v Corr/CheckC08.v Props/C08.v (Print Assumptions); coqc .work/C08/c08_*.v "
                     "(vm_compute: returned vector vs x, Gram matrix vs identity, tol 1e-9)",
-        theorems=thms, axioms_reported=axioms, evaluations=len(cases) + len(grams) + sum(len(r.get('cols', [])) + 2 for r in hrecs), haar_configurations=len(hrecs), distinct_nontrivial=len(nontriv),
+        theorems=thms, axioms_reported=axioms, evaluations=len(cases) + len(grams) + sum(len(r.get('cols', [])) + 2 for r in hrecs) + sum(len(r.get('fw', [])) + len(r.get('ad', [])) for r in grecs), haar_configurations=len(hrecs), haar2d_configurations=len(grecs), distinct_nontrivial=len(nontriv),
         rule="x: integers in [-9,9] (Gaussian integers for complex-linear configurations); FFT/FFT2D/FFTND over engines x norms x real x dtype x "
              "shifts x axes x nfft in n+{0,1,2,5}; Op.H@(Op@x) for ortho and Op/(Op@x) for every norm; DCT types 1-4 all axis subsets; "
              "DWT/DWT2D/DWTND orthogonal wavelets, lengths multiple of 2^level (+ Gram matrix of columns for n<=16/32) and levels deeper than the length supports (2^level > padded n: H, '/', div); shape/dims/dimsd/output-length consistency of every operator; MatrixMult real A with complex right-hand side; Flip, Roll, Transpose, "
@@ -774,7 +931,7 @@ def main(tier):
              "div(densesolver=numpy), tall full-column-rank for the lstsq branch; structured full-rank matrices (complex symmetric non-Hermitian, complex diagonal, complex scaled identity, real symmetric, Hermitian, real/complex triangular). non-trivial = distinct (configuration, kind, x) with x != 0 and result != 0",
         configurations=len(cfgs), distribution=dist, implementation_errors=len(errors), failing_configurations=nfail,
         modelled="FFT/FFT2D/FFTND (Ops/DFT.v, Ops/DFTEngines.v), Flip/Roll/Transpose/Identity as index maps",
-        l1_only="DCT (scipy), DWT/DWT2D/DWTND for non-Haar wavelets and 2-D/N-d transforms (pywt); DWT(haar) 1-D along an axis is MODELLED (Ops/Haar.v, matrix compared in Coq over Q(sqrt 2)); MatrixMult.inv and explicit '/' (LAPACK / SuperLU are oracles)",
+        l1_only="DCT (scipy), DWT/DWT2D/DWTND for non-Haar wavelets and 2-D/N-d transforms (pywt); DWT(haar) along an axis and DWT2D(haar) (last two axes, leading batch axes) are MODELLED (Ops/Haar.v, Ops/Haar2D.v; compared in Coq over Q(sqrt 2)); MatrixMult.inv and explicit '/' (LAPACK / SuperLU are oracles)",
         t_python=round(t_py, 1), t_coq=round(t_coq, 1))
     R.samples = [dict(family=c["family"], params={k: v for k, v in c["params"].items() if k != "A"}, kind=c["kind"],
                       x=[str(t) for t in c["x"][:5]], returned=[str(t) for t in c["r"][:5]])
